@@ -6,6 +6,13 @@
 // must turn the text of file a into the text that was actually compared — for cmpenv the
 // environment-EXPANDED text of b — and back.  The cut-out bytes are also compared with the
 // model's render (correspondence).
+//
+// Operand names are a dimension of their own: testscript documents that a FIRST operand named
+// stdout, stderr or ttyout denotes the captured output of the last command; every other
+// operand is the file of that name.  Cases therefore also use files NAMED stdout, stderr,
+// ttyout and stdin, as first and as second operand, after a user builtin (`emit`) whose
+// captured output equals or differs from the contents of those files; verdict and logged diff
+// must follow (first operand as documented, the real contents of the second FILE).
 package main
 
 import (
@@ -74,6 +81,45 @@ type ccase struct {
 	envs      [][2]string // env K=V lines, in order
 	a, b      []byte      // contents of the files a and b
 	inArchive bool        // files come from the txtar archive (else written by Setup)
+	// names of the two operands ("" = a / b).  A FIRST operand named stdout, stderr or ttyout
+	// denotes the captured output of the last command (documented); a file of that name in
+	// the work directory is then not read.  Every other operand -- in particular every
+	// SECOND operand, whatever its name -- is the file of that name.
+	nameA, nameB string
+	emit         bool   // the script first runs the user builtin `emit`, which writes outBuf / errBuf
+	outBuf       []byte // to its standard output and
+	errBuf       []byte // its standard error
+}
+
+func (c ccase) names() (string, string) {
+	a, b := c.nameA, c.nameB
+	if a == "" {
+		a = "a"
+	}
+	if b == "" {
+		b = "b"
+	}
+	return a, b
+}
+
+// text1: the text the first operand denotes
+func (c ccase) text1() []byte {
+	na, _ := c.names()
+	switch na {
+	case "stdout":
+		if c.emit {
+			return c.outBuf
+		}
+		return nil
+	case "stderr":
+		if c.emit {
+			return c.errBuf
+		}
+		return nil
+	case "ttyout":
+		return nil
+	}
+	return c.a
 }
 
 func (c ccase) script() string {
@@ -81,11 +127,15 @@ func (c ccase) script() string {
 	for _, kv := range c.envs {
 		fmt.Fprintf(&sb, "env %s=%s\n", kv[0], kv[1])
 	}
-	fmt.Fprintf(&sb, "%s a b\n", c.cmd)
+	na, nb := c.names()
+	if c.emit {
+		sb.WriteString("emit\n")
+	}
+	fmt.Fprintf(&sb, "%s %s %s\n", c.cmd, na, nb)
 	if c.inArchive {
-		sb.WriteString("-- a --\n")
+		sb.WriteString("-- " + na + " --\n")
 		sb.Write(c.a)
-		sb.WriteString("-- b --\n")
+		sb.WriteString("-- " + nb + " --\n")
 		sb.Write(c.b)
 	}
 	return sb.String()
@@ -108,14 +158,20 @@ func (c ccase) input() map[string]string {
 	for _, kv := range c.envs {
 		es = append(es, kv[0]+"="+kv[1])
 	}
-	return map[string]string{"mode": "consumer", "cmd": c.cmd, "envs": common.Hex([]byte(strings.Join(es, "\n"))),
+	na, nb := c.names()
+	return map[string]string{"mode": "consumer", "cmd": c.cmd, "name_a": na, "name_b": nb, "emit": fmt.Sprint(c.emit),
+		"emit_stdout": common.Hex(c.outBuf), "emit_stderr": common.Hex(c.errBuf),
+		"emit_stdout_text": fmt.Sprintf("%q", c.outBuf), "emit_stderr_text": fmt.Sprintf("%q", c.errBuf),
+		"first_operand_text": fmt.Sprintf("%q", c.text1()), "envs": common.Hex([]byte(strings.Join(es, "\n"))),
 		"a": common.Hex(c.a), "b": common.Hex(c.b), "in_archive": fmt.Sprint(c.inArchive),
 		"a_text": fmt.Sprintf("%q", c.a), "b_text": fmt.Sprintf("%q", c.b), "b_expanded_text": fmt.Sprintf("%q", c.expanded()),
 		"script_text": fmt.Sprintf("%q", c.script())}
 }
 
 func ccaseFromInput(in map[string]string) ccase {
-	c := ccase{cmd: in["cmd"], a: common.UnHex(in["a"]), b: common.UnHex(in["b"]), inArchive: in["in_archive"] == "true"}
+	c := ccase{cmd: in["cmd"], a: common.UnHex(in["a"]), b: common.UnHex(in["b"]), inArchive: in["in_archive"] == "true",
+		nameA: in["name_a"], nameB: in["name_b"], emit: in["emit"] == "true",
+		outBuf: common.UnHex(in["emit_stdout"]), errBuf: common.UnHex(in["emit_stderr"])}
 	for _, e := range strings.Split(string(common.UnHex(in["envs"])), "\n") {
 		if i := strings.Index(e, "="); i > 0 {
 			c.envs = append(c.envs, [2]string{e[:i], e[i+1:]})
@@ -195,6 +251,39 @@ func genConsumer(r *common.RNG) ccase {
 	c.a = joinLines(al, !r.Chance(1, 5))
 	c.b = joinLines(bl, !r.Chance(1, 5))
 	c.inArchive = archiveSafe(c.a) && archiveSafe(c.b) && r.Chance(2, 3)
+	// operand names: files NAMED like the pseudo-files, in both positions, after a command whose
+	// captured output differs from (or equals) the contents of those files
+	if r.Chance(2, 5) {
+		pool := []string{"stdout", "stderr", "ttyout", "stdin", "a", "b", "stdout.golden", "want"}
+		c.nameA = common.Pick(r, pool)
+		for {
+			if c.nameB = common.Pick(r, pool); r.Chance(3, 4) {
+				c.nameB = common.Pick(r, pool[:4])
+			}
+			if c.nameB != c.nameA {
+				break
+			}
+		}
+		c.emit = r.Chance(4, 5)
+		buf := func() []byte {
+			switch r.Intn(5) {
+			case 0:
+				return append([]byte{}, c.a...)
+			case 1:
+				return append([]byte{}, c.expanded()...)
+			case 2:
+				return append([]byte{}, c.b...)
+			case 3:
+				return nil
+			}
+			var ls []string
+			for i, n := 0, 1+r.Intn(4); i < n; i++ {
+				ls = append(ls, common.Pick(r, plain))
+			}
+			return joinLines(ls, !r.Chance(1, 5))
+		}
+		c.outBuf, c.errBuf = buf(), buf()
+	}
 	return c
 }
 
@@ -227,12 +316,24 @@ func runConsumer(work string, cs []ccase) []cobs {
 		Setup: func(env *testscript.Env) error {
 			c, ok := byName[strings.TrimPrefix(filepath.Base(env.WorkDir), "script-")]
 			if ok && !c.inArchive {
-				if err := os.WriteFile(filepath.Join(env.WorkDir, "a"), c.a, 0o666); err != nil {
+				na, nb := c.names()
+				if err := os.WriteFile(filepath.Join(env.WorkDir, na), c.a, 0o666); err != nil {
 					return err
 				}
-				return os.WriteFile(filepath.Join(env.WorkDir, "b"), c.b, 0o666)
+				return os.WriteFile(filepath.Join(env.WorkDir, nb), c.b, 0o666)
 			}
 			return nil
+		},
+		Cmds: map[string]func(ts *testscript.TestScript, neg bool, args []string){
+			// emit: a user builtin whose captured standard output / error are the case's buffers
+			"emit": func(ts *testscript.TestScript, neg bool, args []string) {
+				c, ok := byName[strings.TrimPrefix(filepath.Base(ts.Getenv("WORK")), "script-")]
+				if !ok {
+					ts.Fatalf("emit: unknown case for %s", ts.Getenv("WORK"))
+				}
+				ts.Stdout().Write(c.outBuf)
+				ts.Stderr().Write(c.errBuf)
+			},
 		},
 	}
 	func() {
@@ -255,7 +356,8 @@ func runConsumer(work string, cs []ccase) []cobs {
 
 // cutDiff extracts what doCmdCmp logged between the echoed command and the FAIL line.
 func cutDiff(c ccase, log string) ([]byte, error) {
-	echo := "> " + c.cmd + " a b\n"
+	na, nb := c.names()
+	echo := "> " + c.cmd + " " + na + " " + nb + "\n"
 	i := strings.LastIndex(log, echo)
 	if i < 0 {
 		return nil, fmt.Errorf("log-shape: the command line is not echoed in the log")
@@ -265,8 +367,8 @@ func cutDiff(c ccase, log string) ([]byte, error) {
 	if j < 0 {
 		return nil, fmt.Errorf("log-shape: no FAIL line after the command")
 	}
-	if !strings.Contains(rest[j:], "a and b differ") {
-		return nil, fmt.Errorf("log-shape: the FAIL line is not `a and b differ`: %q", rest[j:])
+	if !strings.Contains(rest[j:], na+" and "+nb+" differ") {
+		return nil, fmt.Errorf("log-shape: the FAIL line is not `%s and %s differ`: %q", na, nb, rest[j:])
 	}
 	return []byte(rest[:j]), nil
 }
@@ -274,14 +376,16 @@ func cutDiff(c ccase, log string) ([]byte, error) {
 // consumerOracle: "" or the failing oracle + detail; d = the diff cut from the log (if any)
 func consumerOracle(c ccase, o cobs) (name, detail string, d []byte) {
 	want := c.expanded()
-	same := bytes.Equal(c.a, want)
+	first := c.text1()
+	na, nb := c.names()
+	same := bytes.Equal(first, want)
 	switch {
 	case strings.HasPrefix(o.verdict, "NOT-RUN"), o.verdict == "PANIC", o.verdict == "SKIP":
 		return "consumer/ran", "script did not run to a verdict: " + o.verdict, nil
 	case same && o.verdict != "PASS":
-		return "consumer/verdict", "files are equal (after expansion) but the script failed", nil
+		return "consumer/verdict", fmt.Sprintf("the operands %s and %s are equal (after expansion) but the script failed", na, nb), nil
 	case !same && o.verdict != "FAIL":
-		return "consumer/verdict", "files differ (after expansion) but the script passed", nil
+		return "consumer/verdict", fmt.Sprintf("the operands %s (%q) and %s (file contents %q after expansion) differ but the script passed", na, trunc(first), nb, trunc(want)), nil
 	case same:
 		return "", "", nil
 	}
@@ -289,26 +393,26 @@ func consumerOracle(c ccase, o cobs) (name, detail string, d []byte) {
 	if err != nil {
 		return "consumer/" + oracleName(err), err.Error(), nil
 	}
-	hs, err := parseUnified(d, "a", "b")
+	hs, err := parseUnified(d, na, nb)
 	if err != nil {
 		return "consumer/" + oracleName(err), err.Error(), d
 	}
 	if len(hs) == 0 {
 		return "consumer/empty-iff-identical", "the compared texts differ but the logged diff has no hunk", d
 	}
-	got, err := applyPatch(c.a, hs, false)
+	got, err := applyPatch(first, hs, false)
 	if err != nil {
 		return "consumer/forward/" + oracleName(err), err.Error(), d
 	}
 	if !bytes.Equal(got, want) {
-		return "consumer/forward/reproduces-compared-text", fmt.Sprintf("patch(a) = %q, compared text = %q", got, want), d
+		return "consumer/forward/reproduces-compared-text", fmt.Sprintf("patch(%s) = %q, text of file %s (after expansion) = %q", na, got, nb, want), d
 	}
 	back, err := applyPatch(want, hs, true)
 	if err != nil {
 		return "consumer/reverse/" + oracleName(err), err.Error(), d
 	}
-	if !bytes.Equal(back, c.a) {
-		return "consumer/reverse/reproduces-a", fmt.Sprintf("unpatch(compared text) = %q, a = %q", back, c.a), d
+	if !bytes.Equal(back, first) {
+		return "consumer/reverse/reproduces-a", fmt.Sprintf("unpatch(compared text) = %q, %s = %q", back, na, first), d
 	}
 	return "", "", d
 }
@@ -336,7 +440,7 @@ func (rn *runner) consumerViolation(c ccase, name, detail string) {
 	in := c.input()
 	in["log_text"] = fmt.Sprintf("%q", trunc([]byte(o.log)))
 	rn.res.Violate(common.Violation{Kind: "impl-violation", Oracle: name, Input: in, Impl: o.verdict,
-		Key: name + ":" + c.cmd + ":" + in["envs"] + ":" + in["a"] + "/" + in["b"], Detail: detail})
+		Key: name + ":" + c.cmd + ":" + in["envs"] + ":" + in["name_a"] + "/" + in["name_b"] + ":" + in["a"] + "/" + in["b"], Detail: detail})
 }
 
 // consumerBatch runs the cases, applies the oracles and compares the logged diff with the model.
@@ -372,7 +476,11 @@ func (rn *runner) consumerObserved(cs []ccase, obs []cobs, tag string) {
 		rn.res.Count("src:" + tag)
 		rn.res.Count("consumer:" + c.cmd + ":" + strings.SplitN(obs[i].verdict, " ", 2)[0])
 		name, detail, d := consumerOracle(c, obs[i])
-		rn.res.Case("consumer:"+c.script()+common.Hex(c.a)+common.Hex(c.b), obs[i].verdict == "FAIL")
+		rn.res.Case("consumer:"+c.script()+common.Hex(c.a)+common.Hex(c.b)+common.Hex(c.text1()), obs[i].verdict == "FAIL")
+		na, nb := c.names()
+		if c.nameA != "" {
+			rn.res.Count("consumer:names:" + pseudoClass(na) + "/" + pseudoClass(nb))
+		}
 		if name != "" {
 			rn.consumerViolation(c, name, detail)
 		}
@@ -380,7 +488,7 @@ func (rn *runner) consumerObserved(cs []ccase, obs []cobs, tag string) {
 			if !bytes.Equal(c.b, c.expanded()) {
 				rn.res.Count("consumer:expansion-changes-b")
 			}
-			reqs = append(reqs, tcase{oldName: "a", newName: "b", old: c.a, new: c.expanded()}.req())
+			reqs = append(reqs, tcase{oldName: na, newName: nb, old: c.text1(), new: c.expanded()}.req())
 			idx = append(idx, i)
 			impl = append(impl, "ok "+common.Hex(d))
 		}
@@ -400,9 +508,17 @@ func (rn *runner) consumerObserved(cs []ccase, obs []cobs, tag string) {
 			in := c.input()
 			in["logged_text"] = fmt.Sprintf("%q", common.UnHex(impl[k][3:]))
 			rn.res.Violate(common.Violation{Kind: "correspondence", Oracle: "consumer-diff", Input: in, Model: a, Impl: impl[k],
-				Key: "consumer-diff:" + in["a"] + "/" + in["b"], Detail: "the diff logged by " + c.cmd + " differs from render of the model on (a, compared text)"})
+				Key: "consumer-diff:" + in["name_a"] + "/" + in["name_b"] + ":" + in["a"] + "/" + in["b"], Detail: "the diff logged by " + c.cmd + " differs from render of the model on (first operand, text of the second file after expansion)"})
 		}
 	}
+}
+
+func pseudoClass(n string) string {
+	switch n {
+	case "stdout", "stderr", "ttyout", "stdin":
+		return n
+	}
+	return "file"
 }
 
 // hand-written consumer cases, always run
@@ -414,5 +530,10 @@ func consumerFixed() []ccase {
 		{cmd: "cmpenv", envs: [][2]string{{"V", "100%"}}, a: []byte("100%\nq\n"), b: []byte("${V}\nr"), inArchive: false},
 		{cmd: "cmp", envs: [][2]string{{"V", "x"}}, a: []byte("x\n"), b: []byte("$V\n"), inArchive: true},
 		{cmd: "cmp", a: []byte("a\n%d\nb"), b: []byte("a\n%s\nb\n"), inArchive: false},
+		// files named like the pseudo-files: only a FIRST operand stdout/stderr/ttyout is the captured output
+		{cmd: "cmp", nameA: "want", nameB: "stdout", emit: true, outBuf: []byte("one\n"), errBuf: []byte("e\n"), a: []byte("one\n"), b: []byte("two\n"), inArchive: true},
+		{cmd: "cmp", nameA: "stdout", nameB: "stderr", emit: true, outBuf: []byte("one\ntwo\n"), errBuf: []byte("one\n"), a: []byte("file\n"), b: []byte("one\nthree\n"), inArchive: true},
+		{cmd: "cmpenv", envs: [][2]string{{"V", "x"}}, nameA: "stderr", nameB: "ttyout", emit: true, outBuf: []byte("o\n"), errBuf: []byte("x\n"), a: []byte("q\n"), b: []byte("$V\n"), inArchive: false},
+		{cmd: "cmp", nameA: "stdin", nameB: "stdout", emit: true, outBuf: []byte("in\n"), a: []byte("in\n"), b: []byte("out\n"), inArchive: true},
 	}
 }
